@@ -179,3 +179,15 @@ def sibling_acc(rng, acc):
     cands = [None, 0, 1, M, M - 1, B // 2, rng.randint(0, M)]
     cands = [a for a in cands if a != acc]
     return rng.choice(cands)
+
+
+def set_ambient(k, v):
+    """the numeric environment a caller may have set up before calling the library: mpmath's working precision (dps / prec), the
+    decimal module's context precision; the predictions must not depend on any of it"""
+    import mpmath, decimal
+    if k == "decimal": decimal.getcontext().prec = v
+    else: setattr(mpmath.mp, k, v)
+
+def reset_ambient():
+    import mpmath, decimal
+    mpmath.mp.dps = 15; decimal.getcontext().prec = 28
